@@ -314,6 +314,32 @@ fn c01_like(tier: Tier, oracles: Oracles, with_drop: bool) -> Vec<Scenario> {
     let mut sc = Scenario::new("edge-m1-owned-args", Cfg { owned_args: true, ..Cfg::default() }, esetup, Box::new(txs_of(&eops, 1, with_drop, true)), if q { 2 } else { 3 }, oracles);
     sc.extra_probes = vec![blob(""), blob("a"), blob("K*1100")];
     out.push(sc);
+    // keys of a third of a page: branch pages with few, long separators overflow onto a second page
+    {
+        let bk: Vec<String> = (0..8).map(|i| format!("K{}*350", i)).collect();
+        let mut setup_ops = vec![OpSpec::bucket("create", &[], "p"), OpSpec::bucket("create", &["p"], "k"), OpSpec::bucket("create", &[], "top")];
+        for k in &bk {
+            setup_ops.push(OpSpec::put(&["p", "k"], k, "v*8"));
+            setup_ops.push(OpSpec::put(&["top"], k, "v*8"));
+        }
+        setup_ops.push(OpSpec::put(&["p"], "side", "v*8"));
+        let mut bops = vec![
+            OpSpec::bucket("delb", &["p"], "k"),
+            OpSpec::bucket("delb", &[], "top"),
+            OpSpec::bucket("delb", &[], "p"),
+            OpSpec::bucket("goc", &["p"], "k"),
+            OpSpec::bucket("goc", &[], "top"),
+        ];
+        for k in [&bk[0], &bk[3], &bk[7]] {
+            bops.push(OpSpec::del(&["p", "k"], k));
+            bops.push(OpSpec::del(&["top"], k));
+            bops.push(OpSpec::put(&["top"], k, "w*300"));
+        }
+        bops.push(OpSpec::put(&["p", "k"], "K9*350", "v*8"));
+        bops.push(OpSpec::put(&["top"], "K4a*700", "v*8"));
+        let sc = Scenario::new("big-keys-m2", Cfg::default(), vec![tx(setup_ops), Action::Reopen], Box::new(txs_of(&bops, 2, with_drop, true)), if q { 2 } else { 3 }, oracles);
+        out.push(sc);
+    }
     // values of many pages: a single commit that has to extend the file by more than one step
     {
         let hops = vec![
@@ -340,7 +366,7 @@ fn c01_like(tier: Tier, oracles: Oracles, with_drop: bool) -> Vec<Scenario> {
 
 fn c06_scenarios(tier: Tier) -> Vec<Scenario> {
     let q = tier == Tier::Quick;
-    let or = Oracles { rets: true, dump_after: true, no_trace: true, ..Oracles::NONE };
+    let or = Oracles { rets: true, dump_after: true, no_trace: true, fileck: true, dbcheck: true, ..Oracles::NONE };
     let mut out = vec![];
     // big abandoned transactions on a populated two-level tree with nested buckets
     let mut base_ops = vec![OpSpec::bucket("create", &[], "b"), OpSpec::bucket("create", &[], "big")];
@@ -399,6 +425,10 @@ fn c06_scenarios(tier: Tier) -> Vec<Scenario> {
         alpha.push(Action::TxFail { ops: b.clone(), call: 0 });
         alpha.push(Action::TxFail { ops: b.clone(), call: 2 });
     }
+    // a commit whose final sync reports an error: whichever state is visible afterwards must be
+    // complete, and the commits that follow must leave a well-formed file
+    alpha.push(Action::TxFail { ops: bodies[0].clone(), call: 1001 });
+    alpha.push(Action::TxFail { ops: bodies[3].clone(), call: 1001 });
     let followups: Vec<Action> = bodies.iter().take(6).map(|b| Action::Tx { ops: b.clone(), commit: true }).collect();
     let mut sc = Scenario::new("rollback-menu", Cfg::default(), setup, Box::new(alpha), if q { 3 } else { 4 }, or);
     sc.drop_keeps_digest = true;
